@@ -20,7 +20,13 @@ pub open spec fn vf_sum_before(s: Seq<VfEntry>, e: int) -> int
 {
     if s.len() == 0 { 0 } else { (if s[0].epoch < e { s[0].amount } else { 0 }) + vf_sum_before(s.subrange(1, s.len() as int), e) }
 }
-pub open spec fn vf_nonneg(s: Seq<VfEntry>) -> bool { forall|i: int| 0 <= i < s.len() ==> #[trigger] s[i].amount >= 0 }
+pub open spec fn vf_nonneg(s: Seq<VfEntry>) -> bool {
+    &&& forall|i: int| 0 <= i < s.len() ==> #[trigger] s[i].amount >= 0
+    // representation invariant of the real table (head + tail in strictly increasing epoch order): the real functions look only at the head to
+    // decide whether anything has vested, so the contracts below are true of them only for a sorted table; `new` establishes it and every
+    // method preserves it (proved on the real code in unit C14/miner_vesting: `vt_ok`)
+    &&& forall|i: int, j: int| 0 <= i < j < s.len() ==> (#[trigger] s[i]).epoch < (#[trigger] s[j]).epoch
+}
 
 pub proof fn lemma_vf_bounds(s: Seq<VfEntry>, e: int)
     requires vf_nonneg(s)
@@ -30,6 +36,7 @@ pub proof fn lemma_vf_bounds(s: Seq<VfEntry>, e: int)
     if s.len() > 0 {
         let t = s.subrange(1, s.len() as int);
         assert forall|i: int| 0 <= i < t.len() implies #[trigger] t[i].amount >= 0 by { assert(t[i] == s[i + 1]); }
+        assert forall|i: int, j: int| 0 <= i < j < t.len() implies (#[trigger] t[i]).epoch < (#[trigger] t[j]).epoch by { assert(t[i] == s[i + 1] && t[j] == s[j + 1]); }
         lemma_vf_bounds(t, e);
     }
 }
